@@ -25,7 +25,9 @@ MANIFEST = dict(
               'handles; os.walk as a Section variable; memo tables and whole histories over several objects by induction) + '
               'two fail-closed ast translators (guard by path conditions, operations by abstract interpretation with helper '
               'inlining; wrapper and shared-state censuses) + exhaustive vm_compute correspondence + operations-model and '
-              'history-model correspondences against audit-hook observations + audit-hook oracle incl. histories',
+              'history-model correspondences against audit-hook observations + audit-hook oracle incl. histories; round 4: one '
+              'statement of the whole property (c18_property) over a record of all generated objects, package-wide censuses '
+              '(third translator), entry-point and route correspondences, symbolic links modelled (lexical vs real)',
     text='Theorems in Props/C18.v: for every guard expression accepted by the recogniser raise_sound (abs == root, '
          'startswith(root + sep) in four spellings, commonpath == root, closed under and/or/not), every working directory '
          '(also a different one at call time), root argument and path string, a path that RawFileSystem._resolve_path does '
@@ -61,7 +63,24 @@ MANIFEST = dict(
          'constructor). The history model is compared with the accesses observed step by step on two objects sharing a '
          'folder. Real temporary trees (with literal backslash file names inside the root) are searched with every '
          'open/stat/scandir observed, through strings, File handles, chains and after an unconstrained object on the '
-         'same folder has performed the same operations.',
+         'same folder has performed the same operations. '
+         'Round 4: c18_property states the whole property once: for every record of generated objects passing source_ok '
+         '(sound guard; every OS call of RawFileSystem validated and none in File / FileSystem / FileSystemChain; constructor '
+         'facts; entry points and chain calls land on access methods; every census empty) and every history of steps — a '
+         'step is a call by user code reaching, through any route of entry points (fs[x], x in fs, read_kv1, read_prop, '
+         'iteration, File.open_bin/open_str/cache_key) and chain calls with any prefixes (chains inside chains), any OS call '
+         'site of any RawFileSystem object on arbitrary strings — with a memo table under any entry-dropping policy whose '
+         'key covers the steps, or with no table: the table is invisible, every path a constrained object hands to the OS is '
+         'inside its root, and so is everything a folder walk started there lists and finds under the os.walk contract; '
+         'hypotheses satisfiable (example with a chain inside a chain) and each load-bearing one needed (refuted without). '
+         'A third translator reads every module below src/srctools: monkey patches of the classes or of the path library, '
+         'subclasses of RawFileSystem redefining methods, origin of the decorators taken as neutral, cached functions of '
+         'other modules reached from the classes, containers / outside state kept on the objects, constructor signature, '
+         'RawFileSystem(...) calls that switch the constraint off, mixins / metaclasses, stores into constrain_path, and '
+         'the table of entry points (compared with observed accesses, as are routes through nested chains). Symbolic '
+         'links: containment is lexical (abspath); a component-wise realpath model proves that lexical containment is real '
+         'containment when no entry below the root on the way is a link, and refutes it with a link inside the root. '
+         'Drive-letter / UNC / NUL / non-existing-component inputs are computed instances and part of the search.',
     note='Trusted: Coq kernel + vm_compute, translate/c18_guard.py and translate/c18_ops.py, the hand model SM/PathNorm.v of '
          'CPython posixpath (tied by the exhaustive correspondence, POSIX only; Windows path semantics not covered) and the '
          'evaluation of path expressions SM/PathOps.v (tied by the operations correspondence), Adler-32 as the block '
@@ -73,9 +92,12 @@ MANIFEST = dict(
          'FileSystemChain member while staying inside the RawFileSystem root is counted, not reported (the property speaks '
          'about the root directory). unify_path("..") == ".." is an observation, carved out of the theorem. '
          'constrain_path=False and assignments to fs.path / fs.constrain_path from outside the class are exempt. '
-         'The censuses are syntactic over filesys.py: state smuggled in through an object passed to the constructor, '
-         'through another module, or a table kept per object (harmless while the flag of an object is fixed) is not seen; '
-         'the history search on the implementation is the backstop.',
+         'The censuses are syntactic (filesys.py in depth, every other module of the package for patches, subclasses, '
+         'constructions, flag stores): code outside the package, dynamically computed attribute names and C extensions are '
+         'not seen; the history search on the implementation (which imports the package modules naming the classes and '
+         'shares constructor extras between objects) is the backstop. Symbolic links inside the root pointing out are '
+         'followed (lexical reading, observed and counted, not reported). The census booleans in source_ok state that the '
+         'model applies (no table, no wrapper); the proof of c18_property uses guard_ok and calls_ok.',
 )
 
 IMPORTS = ['SV.SM.PathNorm', 'SV.SM.PathNormEnum', 'SV.SM.PathOps', 'SV.SM.PathWalkRel', 'SV.SM.PathMemo', 'SV.SM.PathHistory', 'SV.SM.PathProperty', 'SV.Gen.Containment_gen', 'SV.Gen.FsOps_gen', 'SV.Gen.FsCensus_gen', 'SV.Props.C18', 'Coq.NArith.NArith',
@@ -131,6 +153,8 @@ def impl_resolve(fs, p: str) -> str:
         return getattr(fs, RESOLVE_METHOD[0])(p)
     except RootEscapeError:
         return '!'
+    except Exception as e:          # a fault may make it fail in another way: a result the model will not agree with
+        return '?' + type(e).__name__
 
 
 def impl_unify(p: str) -> str:
@@ -139,6 +163,8 @@ def impl_unify(p: str) -> str:
         return '=' + unify_path(p)
     except ValueError:
         return '!'
+    except Exception as e:
+        return '?' + type(e).__name__
 
 
 def path_shape(p: str) -> str:
@@ -605,6 +631,10 @@ def chain_rel(chain_prefix, path: str) -> str:
     return os.path.join(chain_prefix, path).replace('\\', '/')
 
 
+HANGS: list = []        # paths on which the implementation did not come back
+MAX_HANGS = 12          # after that many the search stops: the failing inputs are in hand, every further one costs seconds
+
+
 class _Hang(BaseException):
     """An operation on the implementation did not come back in time."""
 
@@ -729,7 +759,9 @@ def run_op(base: str, root_spec: str, chain_prefix, op: str, path_t: str, cold: 
     handle = raw = unexpected = None
     cold_escape = exempt_answers = False
     exempt: set = set()
-    limit = time_limit(60)      # one alarm around the whole case (preparation included); an operation takes milliseconds
+    # one alarm around the whole case (preparation included); an operation takes milliseconds.  After the first hang the
+    # limit drops (every further hanging case costs its full limit)
+    limit = time_limit(30 if not HANGS else 3)
     limit.__enter__()
     try:
         fs, raw = make_fs(base, root_spec, chain_prefix)
@@ -747,7 +779,7 @@ def run_op(base: str, root_spec: str, chain_prefix, op: str, path_t: str, cold: 
                 try:
                     if op in SUB_OPS:
                         _sub_op(alone, op, path, [], 400, ans_u)
-                except (OSError, ValueError, UnicodeError):
+                except Exception:
                     pass
             exempt = {_real(os.path.join(base, p)) for _, p in ev_u}
             exempt_answers = bool(ans_u)
@@ -756,7 +788,7 @@ def run_op(base: str, root_spec: str, chain_prefix, op: str, path_t: str, cold: 
         elif op == 'handle_loose':
             try:
                 handle = _handle_for(fs, raw, chain_prefix, RawFileSystem(raw.path, constrain_path=False)[path])
-            except (OSError, ValueError, UnicodeError) as e:
+            except Exception as e:
                 prep = 'no-handle:' + type(e).__name__
         elif op == 'handle_made':
             handle = _handle_for(fs, raw, chain_prefix, File(raw, path, path))
@@ -772,7 +804,7 @@ def run_op(base: str, root_spec: str, chain_prefix, op: str, path_t: str, cold: 
                     for sub in hist_ops:
                         try:
                             _sub_op(fs, sub, path, cold_data, 60)
-                        except (OSError, ValueError, UnicodeError):
+                        except Exception:
                             pass
                 seen0 = [os.path.normpath(os.path.join(base, p)) for _, p in ev0] + \
                     [w for d in cold_data for w in content_paths(base, d)]
@@ -782,7 +814,7 @@ def run_op(base: str, root_spec: str, chain_prefix, op: str, path_t: str, cold: 
             for sub in hist_ops:
                 try:
                     _sub_op(loose, sub, path, [], 3)
-                except (OSError, ValueError, UnicodeError):
+                except Exception:
                     pass
         with observe() as ev:
             try:
@@ -890,13 +922,18 @@ def run_op(base: str, root_spec: str, chain_prefix, op: str, path_t: str, cold: 
                 out = type(e).__name__
             except _Hang:
                 out = 'hang'
-                unexpected = 'no answer within 60 s'
+                unexpected = 'no answer within the time limit (30 s, 3 s after the first hang)'
+                HANGS.append(path_t)
             except Exception as e:          # a fault may make the implementation fail in ways nobody catches: a failing input
                 out = 'unexpected:' + type(e).__name__
                 unexpected = f'{type(e).__name__}: {e}'[:200]
         events = [(k, os.path.normpath(os.path.join(base, p))) for k, p in ev]
     except _Hang:                           # the alarm went off outside the observed block (preparation of the case)
         out, unexpected, events = 'hang', 'no answer within the time limit while preparing the case', []
+        HANGS.append(path_t)
+        root = os.path.normpath(os.path.join(base, 't/root'))
+    except Exception as e:                  # constructing the file system / preparing the case failed in an unforeseen way
+        out, unexpected, events = 'unexpected:' + type(e).__name__, f'while preparing the case: {type(e).__name__}: {e}'[:200], []
         root = os.path.normpath(os.path.join(base, 't/root'))
     finally:
         limit.__exit__(None, None, None)
@@ -966,6 +1003,8 @@ def search_trees(ck: Ck) -> None:
     plain_escaped: set = set()       # (root configuration, chain prefix, path) on which a plain operation escaped
 
     def case(label, root_spec, cp, op, path_t, cold=True, entry_hist=True):
+        if len(HANGS) >= MAX_HANGS:
+            return False
         t0 = time.perf_counter()
         r = run_op(base, root_spec, cp, op, path_t, cold=cold, entry_hist=entry_hist)
         if op == 'after_loose' and not cold:
@@ -1175,7 +1214,9 @@ def observe_symlinks(ck: Ck) -> None:
                     out = _sub_op(fs, op, name, data, 50)
             except RootEscapeError:
                 out = 'RootEscapeError'
-            except (OSError, ValueError) as e:
+            except _Hang:
+                out = 'hang'
+            except Exception as e:
                 out = type(e).__name__
         handed = [os.path.normpath(os.path.join(os.getcwd(), p)) if not os.path.isabs(p) else p for _, p in ev]
         for p in handed:
@@ -1288,7 +1329,7 @@ def corr_ops(ck: Ck) -> None:
                 else:
                     for _f in fs.walk_folder(arg):
                         break
-            except (RootEscapeError, OSError, ValueError, UnicodeError):
+            except Exception:
                 pass
         return sorted({(KCODE[k], p) for k, p in ev if k in KCODE})
 
@@ -1319,11 +1360,8 @@ def corr_ops(ck: Ck) -> None:
                         h.open_str().close()
                     else:
                         h.cache_key()
-            except (RootEscapeError, OSError, ValueError, UnicodeError):       # TokenSyntaxError is a ValueError? no: below
+            except Exception:       # RootEscapeError, OSError, parse errors of the non-keyvalues files ...
                 pass
-            except Exception as e:
-                if type(e).__name__ not in ('TokenSyntaxError', 'KeyValError'):
-                    raise
         return sorted({(KCODE[k], p) for k, p in ev if k in KCODE})
 
     def perform(fs, label, arg, hpath, data):
@@ -1348,7 +1386,7 @@ def corr_ops(ck: Ck) -> None:
                     fs.open_str(h).close()
                 else:
                     fs._get_cache_key(h)
-            except (RootEscapeError, OSError, ValueError, UnicodeError):
+            except Exception:       # RootEscapeError, OSError, ValueError ...: what was handed to the OS before it is what counts
                 pass
         return sorted({(KCODE[k], p) for k, p in ev if k in KCODE})
 
@@ -1627,6 +1665,28 @@ def _stage(ck: Ck, name: str, t0: float) -> float:
     return t1
 
 
+def guarded(ck: Ck, name: str, fn, *args):
+    """Run a stage that calls into the implementation; if the implementation fails there in a way the stage does not expect
+    (a fault may make constructors or helpers raise anything), the stage's obligation fails and the search is escalated —
+    the check itself does not fall over.  Inconclusive (a coqc timeout) is passed on."""
+    try:
+        # the implementation side of a correspondence takes seconds (quick) to a minute or two (thorough)
+        with time_limit(1800 if ck.thorough else 400):
+            return fn(ck, *args)
+    except Inconclusive:
+        raise
+    except _Hang:
+        ck.obligation(name, False, 'the implementation did not come back while the stage ran its cases (time limit of the stage)')
+        ck.tie_broken.append(f'{name}: the implementation hangs')
+        return None
+    except Exception as e:
+        import traceback
+        tb = traceback.extract_tb(e.__traceback__)[-1]
+        ck.obligation(name, False, f'the stage could not be completed: {type(e).__name__}: {e} (at {tb.filename.split("/")[-1]}:{tb.lineno})'[:600])
+        ck.tie_broken.append(f'{name}: {type(e).__name__} while running the implementation')
+        return None
+
+
 def run(ck: Ck) -> None:
     import time
     t = time.time()
@@ -1644,7 +1704,13 @@ def run(ck: Ck) -> None:
                'prefix, operation, path), non-trivial = the path contains "..", a backslash or is absolute and the '
                'operation reached the file system, or it was rejected with RootEscapeError; the history operation '
                'after_loose asks a new constrained object after an unconstrained one on the same folder performed every plain '
-               'operation with the name (quick: corpus + every second targeted spelling + random)')
+               'operation with the name (quick: corpus + every third targeted spelling + random); round 4: file systems made by '
+               'the package factories (get_filesystem, get_inst_locs), chains inside chains and chains with an unconstrained '
+               'member on another folder (its own accesses, observed on a chain holding only it, are exempt), the inherited entry '
+               'points read_kv1 / read_prop, names with drive letters, UNC / device prefixes, NUL bytes, components that do not '
+               'exist, names beyond NAME_MAX / PATH_MAX; entry-point cases (entry point, argument, handle strings) and route '
+               'cases (operation, chain prefixes outermost first, name) compared with the model, non-trivial = reached the OS '
+               'and carries ".." or a backslash; ten symbolic-link situations observed under the lexical reading')
     ck.trusted.append('hand-written model SM/PathNorm.v of posixpath.join/normpath/abspath/commonpath and of _resolve_path / '
                       'unify_path (tied by exhaustive correspondence on every run); Adler-32 block comparison')
     ck.trusted.append('CPython audit events (open, os.scandir, os.listdir, os.walk) and a wrapper around os.stat/os.lstat as '
@@ -1657,7 +1723,10 @@ def run(ck: Ck) -> None:
                           'with directory-entry names; entry names contain no separator and are not "", ".", ".."')
     ck.assumptions.append('File handles may carry any strings; fs.path / fs.constrain_path are not assigned from outside the class')
     ck.assumptions.append('POSIX path semantics (os.sep == "/", backslash is an ordinary character); containment is lexical '
-                          'on normalised absolute paths, symbolic links are outside the quantifier')
+                          'on normalised absolute paths (os.path.abspath): what a symbolic link inside the root points to '
+                          'counts as content of the root (c18_symlink_free_lexical_is_real / c18_symlink_inside_root_leaves_refuted)')
+    ck.trusted.append('translate/c18_census.py (package-wide censuses and the entry-point table; entry points and routes tied '
+                      'by correspondences, the censuses are syntactic)')
     ck.assumptions.append('the working directory is absolute (hypothesis is_abs cwd of the theorems); os.getcwd() always is')
     assert os.sep == '/'
     searched, ties_before = False, 0
@@ -1690,6 +1759,7 @@ def run(ck: Ck) -> None:
             'no_monkey_patch_of_the_file_system_classes_or_path_library_in_the_package': 'nilb foreign_patches',
             'no_subclass_of_raw_file_system_redefines_a_method_in_the_package': 'nilb foreign_subclasses',
             'neutral_decorators_are_the_library_ones': 'nilb decorator_origins',
+            'file_system_classes_have_no_mixin_metaclass_or_class_decorator': 'nilb unexpected_bases',
             'no_cached_function_of_another_module_is_reached': 'nilb reachable_foreign_caches',
             'file_system_objects_keep_no_table_or_outside_state': 'objects_keep_no_table_or_outside_state',
             'entry_points_land_on_access_methods': 'entry_points_land_on_access_methods',
@@ -1703,7 +1773,7 @@ def run(ck: Ck) -> None:
             if w[2] != 'constrained':
                 ck.notes.append('package census constructions: ' + ' / '.join(w))
         for k in ('foreign_patches', 'foreign_subclasses', 'decorator_origins', 'reachable_foreign_caches', 'per_object_state',
-                  'entry_unread'):
+                  'entry_unread', 'unexpected_bases'):
             for w in cen_side.get(k, []):
                 ck.notes.append(f'package census {k}: ' + ' / '.join(w))
         for c_, m_, mm_, p_ in cen_side.get('entry_points', []):
@@ -1720,14 +1790,14 @@ def run(ck: Ck) -> None:
             ck.extra['handles_store_the_validated_string(informational)'] = info[0]
             ck.extra['handle_consuming_sites'] = info[1]
         if not res['guard_is_a_sound_segmentwise_form']:
-            model_predicted_escapes(ck)
+            guarded(ck, 'model_predicted_escapes', model_predicted_escapes)
         if side.get('resolve_digest') not in PINNED_DIGESTS:
             # DESIGN 5.4: a changed hand-modelled function escalates the correspondence budget, it is not an alarm
             ck.notes.append('RawFileSystem._resolve_path differs from the texts the model was written against: '
                             'correspondence compares every function on every block (escalated budget)')
             ESCALATE.append(True)
         t = _stage(ck, 'instance_obligations', t)
-        started = corr_exhaustive_start(ck)
+        started = guarded(ck, 'correspondence:paths_exhaustive', corr_exhaustive_start)
         t = _stage(ck, 'corr_exhaustive_implementation_side', t)
         # Print Assumptions of every theorem (one coqc process) runs next to the search as well; nothing else uses
         # ck.coq_scratch until it is joined
@@ -1742,13 +1812,14 @@ def run(ck: Ck) -> None:
         t = _stage(ck, 'search_trees(while coqc runs)', t)
         th.join()
         t = _stage(ck, 'theorems(Print Assumptions)_wait', t)
-        corr_exhaustive_finish(ck, started)
+        if started is not None:
+            corr_exhaustive_finish(ck, started)
         t = _stage(ck, 'corr_exhaustive_wait', t)
-        corr_random(ck)
+        guarded(ck, 'correspondence:paths_random', corr_random)
         t = _stage(ck, 'corr_random', t)
         check_casefold(ck)
         t = _stage(ck, 'casefold', t)
-        corr_ops(ck)
+        guarded(ck, 'correspondence:operations_model', corr_ops)
         t = _stage(ck, 'corr_ops', t)
     if not searched:
         import_package_modules(ck)
@@ -1773,6 +1844,7 @@ def run(ck: Ck) -> None:
         ck.explain('instance:file_system_methods_share_no_mutable_state')
         for nm in ('no_monkey_patch_of_the_file_system_classes_or_path_library_in_the_package',
                    'no_subclass_of_raw_file_system_redefines_a_method_in_the_package', 'neutral_decorators_are_the_library_ones',
+                   'file_system_classes_have_no_mixin_metaclass_or_class_decorator',
                    'no_cached_function_of_another_module_is_reached', 'file_system_objects_keep_no_table_or_outside_state',
                    'entry_points_land_on_access_methods', 'c18_property_hypotheses_hold_for_todays_source',
                    'package_factories_construct_constrained_systems'):
